@@ -28,6 +28,35 @@ def run_child(d: str, seed: int, mp: bool, renum: str, order: str, files: List[s
     raise RuntimeError(f"c11 child produced no record (rc={p.returncode}): {p.stderr[-800:]}")
 
 
+SPECIAL_FIRST = {"Context Sync", "Event Sync", "Stream Sync", "cudaLaunchKernel", "cudaMemcpyAsync", "cudaMemsetAsync", "kernel", "cuda_runtime",
+                 "cuda_sync", "gpu_memcpy", "cpu_op", "user_annotation", "gpu_user_annotation"}
+_FIRST_SNIPPET = "import sys,json; c,n=json.loads(sys.stdin.read()); print(next(iter(set(c).union(set(n)))))"
+
+
+def first_symbol_seeds(rt, seeds) -> List[int]:
+    """Hash seeds under which the first symbol of the rank's local table (built as set(cat) | set(name), as the parser does) is one of
+    SPECIAL_FIRST.  One tiny interpreter per seed (no pandas), a few milliseconds each."""
+    cats, names = [], []
+    for e in rt.events:
+        if hta.is_complete(e):
+            if e["cat"] not in cats:
+                cats.append(e["cat"])
+            if e["name"] not in names:
+                names.append(e["name"])
+    if not (SPECIAL_FIRST & (set(cats) | set(names))):
+        return []
+    payload = json.dumps([cats, names])
+    good = []
+    for s in seeds:
+        p = subprocess.run(["/venv/bin/python", "-S", "-c", _FIRST_SNIPPET], input=payload, env={"PYTHONHASHSEED": str(s)}, stdout=subprocess.PIPE,
+                           stderr=subprocess.PIPE, text=True)
+        if p.returncode == 0 and p.stdout.strip() in SPECIAL_FIRST:
+            good.append(s)
+            if len(good) >= 2:
+                break
+    return good
+
+
 class C11(Prop):
     id = "C11"
     trace_module = "Trace_SymbolTable"
@@ -48,7 +77,7 @@ class C11(Prop):
         cfg = gen.GenCfg(n_ranks=rng.choice([1, 2, 3, 4]), n_steps=rng.choice([0, 1, 2]), p_launch=0.6, p_mem=0.3, p_comm=0.3,
                          p_sync=rng.choice([0, 0.1]), streams=rng.choice([(7,), (7, 9)]), max_children=rng.choice([2, 3]),
                          base=rng.choice([0, 1000]), fmt=rng.choice(["json", "json.gz"]),
-                         kdur=rng.choice([(0, 1, 2, 3, 5, 8), (1, 2), (2,)]))      # few distinct durations: exact ties between the totals of different names
+                         kdur=rng.choice([(0, 1, 2, 3, 5, 8), (1, 2), (2,)]), gpu_annotations=rng.random() < 0.5)      # few distinct durations: exact ties between the totals of different names
         superset = cfg.n_ranks >= 2 and rng.random() < 0.4
         if superset:
             # a small first rank whose vocabulary is contained in a later rank's: the job's table then has the SIZE of that rank's own
@@ -125,6 +154,10 @@ class C11(Prop):
                 cfgs.append((s, True, "none", "rev" if (multi and s % 2 == 1) else "fwd" if multi else ""))
             for rn in case["renum"]:
                 cfgs.append((0, False, rn, ""))
+            # directed seeds: hash seeds under which a symbol with a special role (a synchronisation record, a launch call, a category)
+            # is the FIRST symbol of the first rank's table, i.e. gets id 0
+            for s in first_symbol_seeds(rts[0], range(4, 40))[:2]:
+                cfgs.append((s, False, "none", ""))
             cfgs = [c + ("",) for c in cfgs]
             if multi:
                 # call histories on one Trace object: one rank parsed alone first (its vocabulary seeds the table), then everything loaded
